@@ -6,6 +6,7 @@ Model: `Model/Text.lean` — the printer (`_pretty_print`, operand `__str__`), t
 assembler (`_replace_constants`, `_build_subroutine`) of `netqasm/lang/parsing/text.py`.
 -/
 import NetqasmVerif.Lemmas.TextProgram
+import NetqasmVerif.Lemmas.TextSourceLine
 import NetqasmVerif.Props.TextObligations
 import NetqasmVerif.Props.C01
 namespace NQ.C17
@@ -168,6 +169,69 @@ theorem vanilla_text_binary_text_counterexample :
       | .ok [i] => ((encodeInstr T i).bind (decodeInstr T)).map
           (fun j => String.ofList (showLine T Gen.syms j))
       | _ => none) = some "mov Q1 M2" := by decide +kernel
+
+/-! ### One lexer for printed lines (C17) and source lines (C03)
+
+What the theorems of this file cover, precisely:
+* `parse_print` — whole programs of PRINTED lines (`str(instr)`: mnemonic, registers, integers,
+  `@a`, `@a[Rn]`, `@a[Rn:Rm]`), lexed by `parseLine` (split at single spaces) and assembled.
+* `source_line_text_roundtrip` (below) — single SOURCE lines `mnemonic op₁ … opₙ` with every
+  proto operand form of C03 (`Asm.POperand`: label operands, integer literals as index or slice
+  bound, …): `parseLine` reads them back, and the faithful model of `group_by_word`
+  (`AsmText.groupByWord`, the tokeniser of C03's model) cuts exactly the same words — so both
+  properties rest on one lexer (`tokeniser_bridge`) and one operand parser
+  (`Text.parseOperand`; `C03.source_operand_text_roundtrip` is the operand-level instance).
+* Not covered by a theorem here (covered by C03's theorems `macros_tokenwise` etc. or by C03's
+  differential streams only): label-definition lines `L:`, `instr(args)` argument brackets,
+  macro substitution, comments, blank lines, the preamble, templates `{x}`. The model's
+  `parseLine` answers `unsupported` on the first three and `parseLines` on comments/preamble;
+  the malformed stream of checks/c17.py skips such inputs. -/
+
+/-- on a line without an opening argument bracket, `group_by_word(line, brackets)` is the split
+at single spaces of the stripped line that `parseLine` uses -/
+theorem tokeniser_bridge (ob cb : Char) (hob : ob ≠ ' ') (line : List Char)
+    (h : ob ∉ AsmText.strip line) :
+    AsmText.groupByWord ob cb line = some (splitOn ' ' (AsmText.strip line)) :=
+  AsmText.groupByWord_eq_splitOn ob cb hob line h
+
+theorem src_syms_ok : srcSymsOk Gen.syms = true := by decide +kernel
+
+/-- printed lines through C03's tokeniser: mnemonic and printed operands, no argument list -/
+theorem printed_line_tokenises (T : Table) (i : Instr) (row : Row)
+    (hT : T.all (rowTextOk T Gen.replaceExceptions Gen.genericNames) = true)
+    (hr : rowOf T i.cls = some row) (hk : InRangeOps row.shape i.ops = true) (cb : Char) :
+    AsmText.groupByWord Gen.syms.argOpen cb (showLine T Gen.syms i)
+      = some (row.mn.toList :: i.ops.map (showOperand Gen.syms)) ∧
+    AsmText.splitOfBracket Gen.syms.argOpen cb row.mn.toList = some (row.mn.toList, []) := by
+  have hS := sok_of Gen.syms syms_ok
+  have hrow := List.all_eq_true.1 hT row (rowOf_some hr).1
+  simp only [rowTextOk, Bool.and_eq_true, beq_iff_eq, Bool.not_eq_true', List.all_eq_true] at hrow
+  have hline : showLine T Gen.syms i = showInstr Gen.syms row.mn i.ops := by simp [showLine, hr]
+  rw [hline]
+  exact printed_line_groupByWord hS (by decide +kernel) cb row.mn
+    (fun hnil => by simp [hnil] at hrow) hrow.2 i.ops (banksOk_of_inRange _ hS.nbanks _ _ hk)
+
+/-- **source lines** (shared with C03): for every `GenericInstr` mnemonic and every list of
+source operands (`pOpOk`: existing register banks; label operands that are variable names
+and not themselves numbers / register names; no templates), `parseLine` reads the line back as
+that command and `group_by_word` cuts the same words. -/
+theorem source_line_text_roundtrip (mn : String) (hne : mn.toList ≠ [])
+    (hmn : ∀ c ∈ mn.toList, mnCharOk c = true) (hg : Gen.genericNames.contains mn = true)
+    (ops : List Asm.POperand) (ho : ∀ o ∈ ops, pOpOk Gen.syms o) (cb : Char) :
+    parseLine Gen.syms Gen.genericNames (mn.toList ++ showSrcOps Gen.syms ops)
+      = .ok ⟨mn, ops.map tokOfP⟩ ∧
+    AsmText.groupByWord Gen.syms.argOpen cb (mn.toList ++ showSrcOps Gen.syms ops)
+      = some (mn.toList :: ops.map (showPOp Gen.syms)) :=
+  parseLine_source (sok_of Gen.syms syms_ok) src_syms_ok _ mn hne hmn hg ops ho cb
+
+-- non-vacuity: `store 7 @0[R1:3]`-like source operands and a label operand satisfy `pOpOk`
+example : pOpOk Gen.syms (.slice 0 (.reg ⟨0, 1⟩) (.lit 3)) ∧ pOpOk Gen.syms (.lab "LOOP_EXIT") ∧
+    Gen.genericNames.contains "beq" = true := by
+  refine ⟨by simp only [pOpOk, valOfRI, valOk]; decide, ?_, by decide +kernel⟩
+  simp only [pOpOk]; decide +kernel
+example : String.ofList ("beq".toList ++ showSrcOps Gen.syms
+    [.reg ⟨0, 0⟩, .lit (-1), .lab "LOOP_EXIT", .entry 2 (.lit 5)]) = "beq R0 -1 LOOP_EXIT @2[5]" := by
+  decide +kernel
 
 /-! Non-vacuity -/
 
